@@ -163,10 +163,31 @@ func returnErrIsNil(r *ssa.Return, i int) (isNil, known bool) {
 	if c, ok := v.(*ssa.Const); ok {
 		return c.IsNil(), true
 	}
+	if u, ok := v.(*ssa.UnOp); ok && u.Op == token.MUL {
+		if _, ok := u.X.(*ssa.Global); ok {
+			return false, true // package-level sentinel error (ErrNoServers, ...): initialised non-nil, never reassigned
+		}
+	}
 	switch x := v.(type) {
-	case *ssa.MakeInterface, *ssa.Call:
-		_ = x
-		return false, true // errors.New / fmt.Errorf / &T{}: non-nil by construction for the constructors used in this module
+	case *ssa.MakeInterface:
+		return false, true // &T{} converted to error: non-nil by construction
+	case *ssa.Call:
+		if o := calleeObj(x.Common()); o != nil && o.Pkg() != nil {
+			switch o.Pkg().Path() + "." + objName(o) {
+			case "errors.New", "fmt.Errorf", "errors.Join":
+				return false, true
+			}
+		}
+	}
+	// `if err != nil { return err }`: the value is returned on its own non-nil edge
+	fn := r.Parent()
+	for _, t := range NilTests(fn, func(x ssa.Value) bool { return stripConv(x) == stripConv(v) }) {
+		if OnlyViaEdge(fn, r, t.NonNil) {
+			return false, true
+		}
+		if OnlyViaEdge(fn, r, t.Nil) {
+			return true, true
+		}
 	}
 	return false, false
 }
